@@ -337,30 +337,30 @@ example : AzOK (ι := ℕ) ⟨fun i => if i = 1 then 5 else 0, fun _ => 0, fun _
     rw [show ((5:ℝ) - 0) * (5 - 0) + (0 - 0) * (0 - 0) = 5 ^ 2 by norm_num]; exact Real.sqrt_sq (by norm_num)
   refine ⟨?_, ?_, ?_⟩ <;> simp [AzDir, hd, h5]
 
-/-- AcordAzimuth::execute as a whole (prepare on first use, the loop over the map in key order with the point
-    list updated on the way, removal, any number of repetitions): if, per pair of points, the azimuth values as
-    `prepare` turns them round are one value pointing from the smaller at the larger id and the distances are the
-    true ones, every xy the point list holds afterwards is true, and the stored entries stay consistent.
-    (`Tri lt`: `PointID::operator<` identifies keys — a strict total order, C07.) -/
+/-- AcordAzimuth::execute as a whole (prepare on first use — map insertion by id order, removal, seam treatment of
+    fix 8d96812 with any fuel ≥ 1, both medians, distance lookup — the loop over the map in key order with the point
+    list updated on the way, removal, any number of repetitions), at full strength: if EVERY azimuth is exact (its
+    value in [0, 2π) as the constructor of `Azimuth` leaves it; `AzDir` follows from the linearisation's function by
+    `C06_acord_azimuth_obs`) and the distances are the true ones, every xy the point list holds afterwards is true
+    and the stored entries stay consistent.  (`Tri lt`: `PointID::operator<` identifies keys, C07.) -/
 theorem C06_acord_azimuth_sound {lt : ι → ι → Bool} (htri : Tri lt) (T : Truth ι) (xN : ℝ) (od : List (Cluster ι ℝ))
-    (alg : AzAlg ι ℝ) (st : St ι ℝ) (az0 : ι → ι → ℝ) (haz : ∀ a b, AzDir T xN a b (az0 a b))
-    (hobsA : ∀ f t v, Obs.azimuth f t v ∈ spObs od →
-      (azNormalize lt f t v).2.2 = az0 (azNormalize lt f t v).1 (azNormalize lt f t v).2.1)
+    (alg : AzAlg ι ℝ) (st : St ι ℝ) (n : ℕ)
+    (hobsA : ∀ f t v, Obs.azimuth f t v ∈ spObs od → AzDir T xN f t v ∧ 0 ≤ v ∧ v < 2 * Real.pi)
     (hobsD : ∀ f t v, Obs.distance f t v ∈ spObs od → v = hd T f t)
     (halg : AzAlgOK T xN alg) (hs : SoundXY T st.pd) :
-    SoundXY T (azExecute lt xN od alg st).2.pd ∧ AzAlgOK T xN (azExecute lt xN od alg st).1 :=
-  azExecute_sound htri T xN od alg st az0 haz hobsA hobsD halg hs
+    SoundXY T (azExecute (n + 1) lt xN od alg st).2.pd ∧ AzAlgOK T xN (azExecute (n + 1) lt xN od alg st).1 :=
+  azExecute_sound htri T xN od alg st n hobsA hobsD halg hs
 
 example : Tri (fun a b : ℕ => decide (a < b)) := by
   intro a b h1 h2; simp at h1 h2; omega
 
-/-- FINDING (round 3, replayed on the C++: corpus/C06/pending/acord-azimuth-seam.txt): the hypothesis "one value per
-    pair" of `C06_acord_azimuth_sound` cannot be replaced by "every azimuth is exact".  A forward azimuth 0 and
-    the exact reverse azimuth π of the same pair are stored as 0 and 2π (`if (val > 2*M_PI)` is strict), their
-    median is π: the new point is put on the opposite side of the known one. -/
-theorem C06_acord_azimuth_seam_defect (lt : ι → ι → Bool) (a b : ι) (h : lt a b = true) :
-    azNormalize lt b a (Real.pi : ℝ) = (a, b, 2 * Real.pi) ∧ median2 ([0, 2 * Real.pi] : List ℝ) = Real.pi :=
-  ⟨az_seam_normalize lt a b h, az_seam_median⟩
+/-- Regression of finding C06-azimuth-seam (fixed by 8d96812; corpus/C06/acord-azimuth-seam.txt): a forward azimuth
+    0 and the exact reverse azimuth π of the same pair are still stored as 0 and 2π, but the seam treatment brings
+    2π back to 0 before the median: the value is 0 (before the fix: π, the new point mirrored through the known one) -/
+theorem C06_acord_azimuth_seam_regression (lt : ι → ι → Bool) (a b : ι) (h : lt a b = true) (n : ℕ) :
+    azNormalize lt b a (Real.pi : ℝ) = (a, b, 2 * Real.pi) ∧
+    median2 (azSeam (n + 1) ([0, 2 * Real.pi] : List ℝ)) = 0 :=
+  ⟨az_seam_normalize lt a b h, az_seam_regression n⟩
 
 /-- AcordHdiff::execute (prepare on first use, refresh of the local copy, the chaining loop with any fuel that
     lets it finish, copy-back): exact height differences and a sound point list give a sound point list; xy is
@@ -396,15 +396,17 @@ theorem C06_acord_vector_step_sound (T : Truth ι) (ls : PD ι ℝ × Bool) (h :
 
 example : VecOK (ι := ℕ) ⟨fun i => i, fun i => 2 * i, fun i => 3 * i⟩ ⟨0, 1, 1, 2, 3⟩ := by simp [VecOK]
 
-/-- the zenith angle of C05's linearisation (`arccos (dz / slope)`) is a first-face zenith reading in the
-    sense used below whenever the sight is not vertical -/
+/-- the zenith angle of C05's linearisation (`arccos (dz / slope)`) and its second-face reading `2π − …`
+    (`Lin.zenithComputed`) are zenith readings in the sense used below whenever the sight is not vertical -/
 theorem C06_acord_zenith_obs (h v : ℝ) (hh : 0 < h) :
-    IsZenith h v (Real.sqrt (h * h + v * v)) (Real.arccos (v / Real.sqrt (h * h + v * v))) :=
-  isZenith_arccos h v hh
+    IsZenithObs h v (Real.sqrt (h * h + v * v)) (Real.arccos (v / Real.sqrt (h * h + v * v))) ∧
+    IsZenithObs h v (Real.sqrt (h * h + v * v)) (2 * Real.pi - Real.arccos (v / Real.sqrt (h * h + v * v))) :=
+  ⟨⟨_, (isZenith_arccos h v hh).1, (isZenith_arccos h v hh).2.1, (isZenith_arccos h v hh).2.2, Or.inl rfl⟩,
+   ⟨_, (isZenith_arccos h v hh).1, (isZenith_arccos h v hh).2.1, (isZenith_arccos h v hh).2.2, Or.inr rfl⟩⟩
 
 /-- AcordZderived, branch A (station height from targets with heights): every `continue`-free outcome is the
     true height of the station — for horizontal distances, slope distances and coordinate distances, with the
-    instrument / target heights of the zenith angle -/
+    instrument / target heights of the zenith angle, readings in either face (fix 50e5b35) -/
 theorem C06_acord_zderived_station_sound (T : Truth ι) (pd : PD ι ℝ) (station : ι) (obs : List (Obs ι ℝ))
     (hxy : SoundXY T pd) (hzs : SoundZ T pd) (hok : ZdOK T station obs) (z : ℝ)
     (h : zdStation pd obs = some z) : z = T.z station :=
@@ -416,7 +418,8 @@ theorem C06_acord_zderived_target_sound (T : Truth ι) (pd : PD ι ℝ) (station
     ∀ c ∈ zdTargets pd (T.z station) obs, c.2 = T.z c.1 :=
   zdTargets_sound T pd station obs hxy hok
 
-example : IsZenith 1 0 1 (Real.pi / 2) := by simp [IsZenith]
+example : IsZenithObs 1 0 1 (Real.pi / 2) :=
+  ⟨Real.pi / 2, by simp [IsZenith], by positivity, by linarith [Real.pi_pos], Or.inl rfl⟩
 
 /-- AcordZderived::execute followed by Acord2::get_medians_z (one round, all clusters, both branches, the
     median of any number of candidates): a sound point list stays sound -/
@@ -425,27 +428,26 @@ theorem C06_acord_zderived_sound (T : Truth ι) (od : List (Cluster ι ℝ)) (al
     SoundZ T (zdRound od alg st).2.pd ∧ SoundXY T (zdRound od alg st).2.pd :=
   zdRound_sound T od alg st h0 hok hxy hz
 
-/-- FINDING (round 3, replayed on the C++: corpus/C06/pending/acord-zderived-face2.txt): a second-face reading
-    `2π − za` — which the linearisation accepts (`if (value > π) za = 2π − za`, `C06_fixed_point_rhs_z_angle`) —
-    enters AcordZderived unreduced and the height difference is applied with the wrong sign
-    (`stZ − v + dh` instead of `stZ + v + dh`) -/
-theorem C06_acord_zderived_face2_defect (T : Truth ι) (pd : PD ι ℝ) (f t : ι) (stZ fdh tdh za s : ℝ)
-    (hz : IsZenith (hd T f t) (T.z t + tdh - (T.z f + fdh)) s za) (hb : (pd f).bxy = false) :
+/-- Regression of finding C06-zderived-face2 (fixed by 50e5b35; corpus/C06/acord-zderived-face2.txt): a second-face
+    reading `2π − za` gives the true height `stZ + v + dh` (before the fix: `stZ − v + dh`) -/
+theorem C06_acord_zderived_face2_regression (T : Truth ι) (pd : PD ι ℝ) (f t : ι) (stZ fdh tdh za s : ℝ)
+    (hz : IsZenith (hd T f t) (T.z t + tdh - (T.z f + fdh)) s za) (h0 : 0 < za) (hp : za < Real.pi)
+    (hb : (pd f).bxy = false) :
     zdTargetHeights pd stZ [(t, hd T f t)] [] ⟨f, t, 2 * Real.pi - za, fdh, tdh⟩ =
-      [(t, stZ - (T.z t + tdh - (T.z f + fdh)) + (fdh - tdh))] :=
-  zd_face2_defect T pd f t stZ fdh tdh za s hz hb
+      [(t, stZ + (T.z t + tdh - (T.z f + fdh)) + (fdh - tdh))] :=
+  zd_face2_regression T pd f t stZ fdh tdh za s hz h0 hp hb
 
 /-- "a step never changes coordinates that were already known and never un-knows a point", for arbitrary
     (also inconsistent) data: AcordAzimuth::execute keeps every defined xy, does not touch heights; one round of
     AcordZderived + get_medians_z keeps every defined height, does not touch xy; `missing` sets never grow -/
-theorem C06_acord_step_monotone (lt : ι → ι → Bool) (xN : ℝ) (od : List (Cluster ι ℝ)) (aa : AzAlg ι ℝ) (za : ZdAlg)
+theorem C06_acord_step_monotone (fuel : ℕ) (lt : ι → ι → Bool) (xN : ℝ) (od : List (Cluster ι ℝ)) (aa : AzAlg ι ℝ) (za : ZdAlg)
     (st : St ι ℝ) :
-    (KeepXY st.pd (azExecute lt xN od aa st).2.pd ∧ SameZ st.pd (azExecute lt xN od aa st).2.pd ∧
-      Sub st.missXY (azExecute lt xN od aa st).2.missXY ∧ (azExecute lt xN od aa st).2.missZ = st.missZ) ∧
+    (KeepXY st.pd (azExecute fuel lt xN od aa st).2.pd ∧ SameZ st.pd (azExecute fuel lt xN od aa st).2.pd ∧
+      Sub st.missXY (azExecute fuel lt xN od aa st).2.missXY ∧ (azExecute fuel lt xN od aa st).2.missZ = st.missZ) ∧
     (st.candZ = [] →
       KeepZ st.pd (zdRound od za st).2.pd ∧ SameXY st.pd (zdRound od za st).2.pd ∧
       Sub st.missZ (zdRound od za st).2.missZ ∧ (zdRound od za st).2.missXY = st.missXY) := by
-  obtain ⟨a, b, c, d, _⟩ := azExecute_mono lt xN od aa st
+  obtain ⟨a, b, c, d, _⟩ := azExecute_mono fuel lt xN od aa st
   exact ⟨⟨a, b, c, d⟩, fun h0 => zdRound_mono od za st h0⟩
 
 /-- … for AcordHdiff / AcordVector the part that holds for arbitrary data is "no flag is cleared, the other
